@@ -663,7 +663,24 @@ pub fn replay_main(args: &[String]) -> i32 {
         let seed = v.get("run_seed").and_then(|x| x.as_u64()).unwrap_or(0);
         CUR_SEED.store(seed, Ordering::Relaxed);
         CUR_INDEX.store(v.get("index").and_then(|x| x.as_u64()).unwrap_or(0), Ordering::Relaxed);
-        let Plan { program, setup, opts } = props::plan(&prop, &tier, seed);
+        let sub = v.get("sub").and_then(|x| x.as_u64()).unwrap_or(0) as usize;
+        let mut dry = |p: &Plan| exec::execute(&p.program, props::clone_setup(&p.setup), &p.opts);
+        let mut plans = props::plans(&prop, &tier, seed, &mut dry);
+        if plans.is_empty() {
+            println!("NOT-REPRODUCED (no plan for this seed)");
+            return 0;
+        }
+        let Plan { program, setup, opts } = plans.swap_remove(sub.min(plans.len() - 1));
+        if let Some(i) = args.iter().position(|a| a == "--record") {
+            // write the program first, then stream the schedule as it is decided
+            if let Some(path) = args.get(i + 1) {
+                let head = json!({"program": program.to_json(), "setup": setup_to_json(&setup), "opts": opts_to_json(&opts)});
+                let _ = std::fs::write(path, format!("P {}\n", head));
+                let c = std::ffi::CString::new(path.as_str()).unwrap();
+                let fd = unsafe { libc::open(c.as_ptr(), libc::O_WRONLY | libc::O_APPEND) };
+                sched::TRACE_FD.store(fd, Ordering::Relaxed);
+            }
+        }
         let mut js = JudgeStats::default();
         let r = exec::execute(&program, setup, &opts);
         let viol = props::judge(&prop, &program, &r, &opts, &mut js);
@@ -860,7 +877,9 @@ pub fn minimise(mut best: Value, budget_s: u64) -> Value {
     shrink_trace(&mut best, &mut n);
     // 2. program: drop threads' operations one at a time, pre-population entries; each candidate
     //    is re-searched with a small schedule budget because step numbers shift
-    let mut changed = true;
+    // a crash cannot hand back the schedule it actually followed, so candidate programs (which
+    // need a fresh schedule search) are not attempted for crashes: only the schedule is shrunk
+    let mut changed = best["class"].as_str() != Some("crash");
     while changed && !over(&t0) {
         changed = false;
         let nthreads = best["program"]["threads"].as_array().map(|a| a.len()).unwrap_or(0);
@@ -1114,6 +1133,42 @@ pub fn report_violation(prop: &str, v: Value) -> i32 {
     let class = v["class"].as_str().unwrap_or("").to_string();
     println!("violation candidate: class={} index={} run_seed={}", class, v["index"], v["run_seed"]);
     println!("{}", v["detail"].as_str().unwrap_or(""));
+    let mut v = v;
+    if v.get("by_seed").and_then(|x| x.as_bool()).unwrap_or(false) && std::env::var("VERIF_NO_MINIMISE").is_err() {
+        // a crash took its schedule with it: re-run the seed once with the schedule streamed to
+        // a file, and continue with an explicit program + schedule if that reproduces the crash
+        let tmp = format!("{}/crash-{}.rec", tmp_dir(), std::process::id());
+        let seedfile = format!("{}/crash-{}.json", tmp_dir(), std::process::id());
+        let _ = std::fs::write(&seedfile, v.to_string());
+        let _ = Command::new(exe()).arg("replay").arg(&seedfile).arg("--record").arg(&tmp).stdout(Stdio::null()).stderr(Stdio::null()).status();
+        if let Ok(text) = std::fs::read_to_string(&tmp) {
+            let mut head: Option<Value> = None;
+            let mut trace: Vec<Value> = Vec::new();
+            for line in text.lines() {
+                if let Some(rest) = line.strip_prefix("P ") {
+                    head = serde_json::from_str(rest).ok();
+                } else if let Some(rest) = line.strip_prefix("T ") {
+                    let f: Vec<u64> = rest.split_whitespace().filter_map(|x| x.parse().ok()).collect();
+                    if f.len() == 3 {
+                        trace.push(json!([f[0], f[1], f[2]]));
+                    }
+                }
+            }
+            if let Some(h) = head {
+                let mut full = v.clone();
+                full["by_seed"] = json!(false);
+                full["program"] = h["program"].clone();
+                full["setup"] = h["setup"].clone();
+                full["opts"] = h["opts"].clone();
+                full["trace"] = Value::Array(trace);
+                if try_candidate(&full, 0, "crashrec").is_some() {
+                    v = full;
+                }
+            }
+        }
+        let _ = std::fs::remove_file(&tmp);
+        let _ = std::fs::remove_file(&seedfile);
+    }
     let by_seed = v.get("by_seed").and_then(|x| x.as_bool()).unwrap_or(false);
     let is_seq = matches!(v.get("format").and_then(|x| x.as_str()), Some("flurry-sim-seq-1") | Some("flurry-sim-c14-1"));
     let min = if by_seed || is_seq || std::env::var("VERIF_NO_MINIMISE").is_ok() { v.clone() } else { minimise(v.clone(), 90) };
